@@ -3234,13 +3234,15 @@ impl PeerConnection {
         let mut config = config.unwrap_or_default();
         config.label = label.to_string();
 
+        // The id is picked and the channel registered under one lock: two
+        // concurrent calls must not both find the same id free.
+        let mut channels = self.inner.data_channels.lock();
         let id = if let Some(negotiated_id) = config.negotiated {
             negotiated_id
         } else {
             let is_client = self.inner.dtls_role.borrow().unwrap_or(true);
             let offset = if is_client { 0 } else { 1 };
 
-            let channels = self.inner.data_channels.lock();
             let mut id = offset;
             loop {
                 let mut used = false;
@@ -3265,7 +3267,8 @@ impl PeerConnection {
             config.clone(),
         ));
 
-        self.inner.data_channels.lock().push(Arc::downgrade(&dc));
+        channels.push(Arc::downgrade(&dc));
+        drop(channels);
 
         if !dc.negotiated {
             let transport = self.inner.sctp_transport.lock().clone();
